@@ -8,6 +8,8 @@ import RSVerif.Model.Codec
 import RSVerif.Model.State
 import RSVerif.Model.Tables
 import RSVerif.Model.Spec
+import RSVerif.Model.Select
+import RSVerif.Model.Lazy
 
 open RS
 
@@ -116,6 +118,24 @@ def showSymbols (a : Array Sym) : String :=
 def handle (st : Session) (line : String) : Session × String :=
   match line.trimAscii.toString.splitOn " " with
   | ["Z"] => ({}, "z")
+  | ["E", "allocs"] =>
+    match st.enc with
+    | some e => match e.inner with
+      | .some _ w => (st, s!"a={w.allocs} b=0 held={w.heldBlocks}")
+      | .none => (st, "none")
+    | none => (st, "none")
+  | ["D", "allocs"] =>
+    match st.dec with
+    | some d => match d.inner with
+      | .some _ w => (st, s!"a={w.allocs} b={w.bitAllocs} held={w.heldBlocks}")
+      | .none => (st, "none")
+    | none => (st, "none")
+  | ["L", "select", "x86", a, s] =>
+    let l := executedX86 (a == "true") (s == "true")
+    (st, if l.isEmpty then "-" else ",".intercalate (l.map fun i => match i with | .avx2 => "avx2" | .ssse3 => "ssse3" | .neon => "neon" | .portable => "portable"))
+  | ["L", "select", "arm", n] =>
+    let l := executedArm (n == "true")
+    (st, if l.isEmpty then "-" else ",".intercalate (l.map fun i => match i with | .avx2 => "avx2" | .ssse3 => "ssse3" | .neon => "neon" | .portable => "portable"))
   -- ---------------- encoder object
   | ["E", "new", kind, sched, k, r, sb] =>
     match parseKind kind, parseSched sched, k.toNat?, r.toNat?, sb.toNat? with
